@@ -56,9 +56,92 @@ static std::string fmt_op(const toks_t& t)
 
 static jsoncons::bigint big_of(const std::string& s) { return jsoncons::bigint(s.data(), s.size()); }
 
+
+// ---- limb-exact bigint ops ("bigl ..."): operands/results are p|n + little-endian hex words, e.g. n1,0,ff ----
+static jsoncons::bigint limbs_of(const std::string& t)
+{
+    if (t.empty() || (t[0] != 'p' && t[0] != 'n')) throw bad_op{};
+    std::vector<uint64_t> ws;
+    std::size_t i = 1;
+    while (i < t.size())
+    {
+        std::size_t j = t.find(',', i);
+        if (j == std::string::npos) j = t.size();
+        ws.push_back(std::strtoull(t.substr(i, j - i).c_str(), nullptr, 16));
+        i = j + 1;
+    }
+    jsoncons::bigint a;
+    a.resize(ws.size());
+    auto v = a.get_storage_view();
+    for (std::size_t k = 0; k < ws.size(); ++k) v[k] = ws[k];
+    a.set_negative(t[0] == 'n');
+    return a;
+}
+
+static std::string limbs_to(const jsoncons::bigint& a)
+{
+    std::string s = a.is_negative() ? "n" : "p";
+    auto v = a.get_storage_view();
+    char buf[32];
+    for (std::size_t k = 0; k < v.size(); ++k)
+    {
+        std::snprintf(buf, sizeof buf, "%s%llx", k ? "," : "", (unsigned long long)v[k]);
+        s += buf;
+    }
+    return s;
+}
+
+static std::string bigl(const toks_t& t)
+{
+    const std::string& op = t.at(1);
+    if (op == "parse")
+    {
+        std::string s = xarg(t.at(2));
+        try { jsoncons::bigint a(s.data(), s.size()); return "ok " + limbs_to(a); }
+        catch (const std::invalid_argument&) { return "err"; }
+    }
+    if (op == "frombytes")
+    {
+        int signum = std::atoi(t.at(2).c_str());
+        std::string s = xarg(t.at(3));
+        jsoncons::bigint a = jsoncons::bigint::from_bytes_be(signum, reinterpret_cast<const uint8_t*>(s.data()), s.size());
+        return "ok " + limbs_to(a);
+    }
+    jsoncons::bigint a = limbs_of(t.at(2));
+    if (op == "mulw") { a *= static_cast<uint64_t>(std::strtoull(t.at(3).c_str(), nullptr, 16)); return "ok " + limbs_to(a); }
+    if (op == "mul") { a *= limbs_of(t.at(3)); return "ok " + limbs_to(a); }
+    if (op == "add") { a += limbs_of(t.at(3)); return "ok " + limbs_to(a); }
+    if (op == "sub") { a -= limbs_of(t.at(3)); return "ok " + limbs_to(a); }
+    if (op == "shl") { a <<= static_cast<std::size_t>(std::strtoull(t.at(3).c_str(), nullptr, 10)); return "ok " + limbs_to(a); }
+    if (op == "shr") { a >>= static_cast<std::size_t>(std::strtoull(t.at(3).c_str(), nullptr, 10)); return "ok " + limbs_to(a); }
+    if (op == "tobytes")
+    {
+        int signum;
+        std::vector<uint8_t> v;
+        a.write_bytes_be(signum, v);
+        return "ok " + std::to_string(signum) + " x" + hex(v.begin(), v.end());
+    }
+    if (op == "divw")
+    {
+        uint64_t d = std::strtoull(t.at(3).c_str(), nullptr, 16);
+        if (d == 0) return "divzero";
+        jsoncons::bigint q, r;
+        a.divide(jsoncons::bigint(d), q, r, true);
+        return "ok " + limbs_to(q) + " " + limbs_to(r);
+    }
+    if (op == "tostr")
+    {
+        std::string s;
+        a.write_string(s);
+        return "ok x" + hex(s);
+    }
+    throw bad_op{};
+}
+
 std::string jvh::handle(const toks_t& t)
 {
     if (t.size() < 2) throw bad_op{};
+    if (t[0] == "bigl") return bigl(t);
     if (t[0] == "num")
     {
         const std::string& op = t[1];
